@@ -11,6 +11,7 @@ class A(Adapter):
     name = "knapsack"
     lean = "knapsack"
     serves = {"C01", "C04", "C05", "C06", "C08", "C09", "C11", "C12"}
+    ops = ("state", "step", "judge", "bounds")
     terminate_on_invalid = True
     max_steps = 60
 
